@@ -493,3 +493,6 @@ def run(rep, facts, tier):
                 ok, why = True, 'ArcStr::ptr_eq compares allocations of immutable text; cloning the interpreter shares them, the answer is the same in every copy'
             rep.add('C03.R7', 'C03.R7:refcount-observed:%s' % fn, ok, why, fn, t.get('at'))
     rep.add('C03.R7', 'C03.R7:observers-counted', True, '%d reference-count / pointer-identity reads in the crate' % n7, None, None, nontrivial=False)
+
+# as-built addendum
+EXPLANATION += " As built (DESIGN 9.2): R6 also: the C API hands out a pointer only from slice(); a 'static view is made only of memory leaked for good. R7: no result depends on a reference count or on the identity of mutable storage (ArcStr::ptr_eq on immutable source buffers is exempt)."
